@@ -960,6 +960,7 @@ func (v *vm) evalScript(stackp *[][]byte, script []byte, sv sigVersion, ed *exec
 	if len(vfExec) != 0 {
 		return "UNBALANCED_CONDITIONAL"
 	}
+	tr.LastOp = -1 // this script ran to completion; a later failure is not tied to an opcode
 	return ""
 }
 
